@@ -393,6 +393,51 @@ theorem window_cap_after_reload_statement_false : ¬ window_cap_after_reload_sta
   rw [hx] at this
   cases this
 
+/-! ## reloading: which rule object stays in force -/
+
+/-- `Float64Equals` on two finite thresholds is the **absolute** comparison `|x - y| < 10⁻⁸` -/
+theorem thrEq_frac_iff (n1 d1 n2 d2 : Nat) (h1 : 0 < d1) (h2 : 0 < d2) :
+    thrEq (.frac n1 d1) (.frac n2 d2) = true ↔ |(n1 : ℚ) / d1 - (n2 : ℚ) / d2| < 1 / 100000000 := by
+  have hd1 : (0 : ℚ) < d1 := by exact_mod_cast h1
+  have hd2 : (0 : ℚ) < d2 := by exact_mod_cast h2
+  have hdd : (0 : ℚ) < (d1 : ℚ) * d2 := mul_pos hd1 hd2
+  have hdiff : (n1 : ℚ) / d1 - (n2 : ℚ) / d2 = ((n1 : ℚ) * d2 - n2 * d1) / (d1 * d2) := by
+    field_simp
+  have habs : (((n1 * d2 - n2 * d1 + (n2 * d1 - n1 * d2) : Nat)) : ℚ) = |(n1 : ℚ) * d2 - n2 * d1| := by
+    rcases Nat.le_total (n2 * d1) (n1 * d2) with h | h
+    · have e : n2 * d1 - n1 * d2 = 0 := Nat.sub_eq_zero_of_le h
+      rw [e, Nat.add_zero, Nat.cast_sub h]
+      push_cast
+      rw [abs_of_nonneg]
+      have : ((n2 * d1 : Nat) : ℚ) ≤ ((n1 * d2 : Nat) : ℚ) := by exact_mod_cast h
+      push_cast at this; linarith
+    · have e : n1 * d2 - n2 * d1 = 0 := Nat.sub_eq_zero_of_le h
+      rw [e, Nat.zero_add, Nat.cast_sub h]
+      push_cast
+      rw [abs_of_nonpos]
+      · ring
+      have : ((n1 * d2 : Nat) : ℚ) ≤ ((n2 * d1 : Nat) : ℚ) := by exact_mod_cast h
+      push_cast at this; linarith
+  simp only [thrEq, decide_eq_true_eq]
+  rw [hdiff, abs_div, abs_of_pos hdd, div_lt_iff₀ hdd, ← habs]
+  constructor
+  · intro h
+    have : (((n1 * d2 - n2 * d1 + (n2 * d1 - n1 * d2)) * 100000000 : Nat) : ℚ) < ((d1 * d2 : Nat) : ℚ) := by exact_mod_cast h
+    push_cast at this ⊢
+    linarith
+  · intro h
+    have : (((n1 * d2 - n2 * d1 + (n2 * d1 - n1 * d2)) * 100000000 : Nat) : ℚ) < ((d1 * d2 : Nat) : ℚ) := by
+      push_cast at h ⊢
+      linarith
+    exact_mod_cast this
+
+/-- a reload whose threshold moved by less than the tolerance keeps the **old** controller (old id, old threshold); one
+    that moved by more installs the new one — also for huge thresholds, where a relative tolerance would be far larger:
+    3·10⁹ → 3·10⁹ − 20 is a change -/
+theorem thrEq_samples :
+    thrEq (.frac 3 1) (.frac 299999998 100000000) = false ∧ thrEq (.frac 3 1) (.frac 2999999995 1000000000) = true ∧
+    thrEq (.frac 3000000000 1) (.frac 2999999980 1) = false ∧ thrEq .unbounded .unbounded = false := by decide
+
 /-! ## the known finding `assoc-standalone-own-traffic` -/
 
 /-- the witness configuration: a rule on resource 1, associated with resource 2, threshold 2, interval 3000
